@@ -9,7 +9,7 @@ POP_ENGINES = ("EADeme", "DEDeme", "SHADEDeme")
 
 
 def h_step(P, kinds, shape, props, L=2, hibernation=False, generations=2, mech="stub", warm=1, monotone=True, maximize=False,
-           deme_filters="limit1", objective="smooth", lsc="sym"):
+           deme_filters="limit1", objective="smooth", lsc="sym", gsc="sym"):
     w = build(P, kinds, shape, L=L, hibernation=hibernation, generations=generations, mech=mech, warm=warm, maximize=maximize,
               deme_filters=deme_filters, objective=objective)
     tree = w.tree
@@ -21,6 +21,11 @@ def h_step(P, kinds, shape, props, L=2, hibernation=False, generations=2, mech="
         _c02_end_to_end(P, w, tree)
     best_before = [tree.best_individual.fitness]
     go_symbolic(w, monotone=monotone)
+    if gsc != "sym":
+        # a shipped global stop condition (with a symbolic limit) instead of free verdicts: which consultation is the first 'true'
+        # is then decided by the budget, for every value of the budget
+        from .trun import make_gsc
+        w.gsc.inner = make_gsc(gsc, w)
     if lsc == "MetaepochLimit:sym":
         # shipped local stop condition that reads the deme's own history, with a symbolic limit
         from pyhms.stop_conditions import MetaepochLimit
@@ -399,6 +404,10 @@ def tree_cases(prop, tier, hibernation_values=(False,), extra=None):
         lsc="AllChildrenStopped")
     add("step.de-shade.lsc-fitnesssteadiness", kinds=["de", "shade"], shape=[[0, 0]], generations=2, L=2, hibernation=hibernation_values[0],
         lsc="FitnessSteadiness", warm=2)
+    # shipped evaluation-based global stop conditions with a symbolic budget, from an arbitrary flag state
+    for g in ("SingularProblemEvalLimitReached:sym", "FitnessEvalLimitReachedRoot:sym"):
+        add(f"step.ea-cma.gsc-{g}", kinds=["ea", "cma"], shape=[[0, 0]], generations=2, L=2, hibernation=hibernation_values[0], gsc=g)
+        add(f"step.de-ea-cma.gsc-{g}", kinds=["de", "ea", "cma"], shape=[[0], [0]], generations=2, L=2, hibernation=hibernation_values[0], gsc=g)
     # more than two generations per metaepoch
     for kinds in (("de", "cma"), ("ea", "cma"), ("shade", "cma")):
         add(f"step.{'-'.join(kinds)}.g3", kinds=list(kinds), shape=[[0]], generations=3, L=2, hibernation=hibernation_values[0])
